@@ -490,6 +490,9 @@ func cmdCheck(args []string) int {
 		for _, v := range res.Violations {
 			c := v.Cex
 			c.Property, c.Harness, c.Pkg, c.Repeat, c.Detail = id, h.Func, h.Pkg, 512, v.Detail
+			if v.Label == "no-data-race" {
+				c.Repeat = 8 // the race detector needs the two accesses to happen, not a particular timing
+			}
 			path, _ := writeCex(cexDir, fmt.Sprintf("viol-%s-%d.json", h.Func, n), c)
 			n++
 			pend = append(pend, pendingCex{path: path, pkg: h.Pkg, harness: h.Func, label: v.Label, kind: v.Kind})
